@@ -11,6 +11,8 @@ name groups.  Every answer is judged by TLC.
 """
 from __future__ import annotations
 
+import concurrent.futures as cf
+
 from . import common, tlc
 
 # (name, token) -> how it is suggested.  For one name all tokens are the same kind with the same `log`
@@ -235,7 +237,7 @@ def _short(history) -> str:
 # judging
 # ---------------------------------------------------------------------------------------------
 
-def judge(ctx, histories, label, strict_every=3):
+def judge(ctx, histories, label, strict_every=4):
     """Execute, validate.  Every `strict_every`-th history is validated a second time as a `strict` trace
     (must also equal the Scan/Split model: cursor value, group order); a strict trace that is rejected while
     its plain twin is accepted is DRIFT of the algorithm model (informational), never a violation."""
@@ -285,31 +287,47 @@ def run(ctx):
                 "histories = TLC random walks of SearchSpaceMC/SimSpec (<=6 trials, 3 names, 3 dists) + seeded "
                 "generator; every Calculate answer is judged by TLC against SearchSpace.tla; distinct = distinct "
                 "(history, include_pruned) with a non-empty intersection or >= 2 groups at some Calculate")
-    # E1: the transcribed cursor algorithm / group splitting refine the property level in every bounded history
+    # E1 (runs in a second thread, concurrently with E2/E3): the transcribed cursor algorithm / group splitting
+    # refine the property level in every history of the bounded instance; and negative spec tests: a wrong
+    # cursor comparison, WAITING not treated as unfinished, groups not split must each violate their property.
     cfg = "SearchSpaceMC_q" if ctx.quick else "SearchSpaceMC_t"
-    r = tlc.require_model("SearchSpaceMC", cfg, must_cover=MC_ACTIONS, timeout=3600)
+
+    def model_part():
+        r = tlc.require_model("SearchSpaceMC", cfg, must_cover=MC_ACTIONS, timeout=3600)
+        neg = {}
+        for variant, prop in (("ge", "IncrementalEqualsScratch"), ("waiting", "IncrementalEqualsScratch"),
+                              ("nosplit", "GroupsArePartition")):
+            b = tlc.expect_violation("SearchSpaceMC", f"SearchSpaceMC_bad_{variant}", prop)
+            neg[variant] = {"violates": b.violated, "wall_s": round(b.wall_s, 1)}
+        return r, neg
+
+    tlc.scratch()  # create the scratch root before a second thread may ask for it
+    pool = cf.ThreadPoolExecutor(max_workers=1)
+    model_future = pool.submit(model_part)
+
+    try:
+        # E2: histories
+        n_walks, n_gen = (400, 1000) if ctx.quick else (4000, 20000)
+        walks = tlc.simulate("SearchSpaceMC", "SearchSpaceSim", num=n_walks, depth=45, seed=ctx.seed + 1, timeout=900)
+        histories = [walk_to_history(b, ctx.rng) for b in walks]
+        histories += [gen_history(ctx.rng) for _ in range(n_gen)]
+        ctx.notes["histories"] = {"tlc_walks": len(walks), "generated": n_gen}
+
+        # E3
+        v, traces = judge(ctx, histories, "histories")
+        for t in traces[:: max(1, len(traces) // 4)][:4]:
+            ctx.sample({"ip": t["ip"], "ev": t["ev"][:14]})
+    finally:
+        cf.wait([model_future])  # never leave a TLC run behind, whatever happened above
+        pool.shutdown()
+
+    r, neg = model_future.result()
     ctx.model(r, cfg)
-    ctx.exhaustive = True
-    # negative spec tests: wrong cursor comparison, WAITING not treated as unfinished, groups not split
-    neg = {}
-    for variant, prop in (("ge", "IncrementalEqualsScratch"), ("waiting", "IncrementalEqualsScratch"),
-                          ("nosplit", "GroupsArePartition")):
-        b = tlc.expect_violation("SearchSpaceMC", f"SearchSpaceMC_bad_{variant}", prop)
-        neg[variant] = {"violates": b.violated, "wall_s": round(b.wall_s, 1)}
+    ctx.exhaustive = False
+    ctx.notes["exhaustive_part"] = (f"{cfg}: every history of the bounded instance at model level (refinement of the "
+                                    "property level by the transcribed algorithms); conformance histories are sampled")
     ctx.notes["model_level_negative_tests"] = neg
     print(f"[{ctx.pid}] wrong variants rejected by the model: {neg}", flush=True)
-
-    # E2: histories
-    n_walks, n_gen = (400, 1200) if ctx.quick else (4000, 20000)
-    walks = tlc.simulate("SearchSpaceMC", "SearchSpaceSim", num=n_walks, depth=45, seed=ctx.seed + 1, timeout=900)
-    histories = [walk_to_history(b, ctx.rng) for b in walks]
-    histories += [gen_history(ctx.rng) for _ in range(n_gen)]
-    ctx.notes["histories"] = {"tlc_walks": len(walks), "generated": n_gen}
-
-    # E3
-    v, traces = judge(ctx, histories, "histories")
-    for t in traces[:: max(1, len(traces) // 4)][:4]:
-        ctx.sample({"ip": t["ip"], "ev": t["ev"][:14]})
 
     # binding self-tests: a wrong intersection and merged groups must be rejected
     def has_inc(t):
@@ -326,11 +344,11 @@ def run(ctx):
         e = [e for e in t["ev"] if e["op"] == "calc" and len(e["groups"]) > 1][-1]
         e["groups"] = [sorted(sum(e["groups"], []))]
     for pred, corrupt, label in ((has_inc, drop_pair, "inc minus one pair"), (has_groups, merge_groups, "groups merged")):
-        acc = next((t for t in traces if t["tid"] in v.accepted and pred(t)), None)
+        if v.rejected:
+            break  # a verdict exists already; the self-tests only guard against a vacuous pass
+        acc = next((t for t in traces if pred(t)), None)
         if acc is None:
-            if not v.rejected:
-                raise tlc.MachineryError(f"no accepted trace to run the binding self-test '{label}' on")
-            continue
+            raise tlc.MachineryError(f"no accepted trace to run the binding self-test '{label}' on")
         ctx.binding_selftest("SearchSpaceTrace", "SearchSpaceTrace", acc, corrupt, label)
     ctx.assumptions += [
         "eligible trials = COMPLETE, and PRUNED iff include_pruned (documented behaviour of both calculators); the "
